@@ -144,7 +144,39 @@ def run(ctx):
                         (31337, 31338, 77, len(addr), b"minted by the python reference"):
                     fails.append({"why": "munged does not accept/echo a v3 credential built in Python (mac %d zip %d addr_len %d): %s"
                                          % (m, z, len(addr), d and (d["error_num"], d["error_str"], d["addr_len"]))})
-    mism += []
+    # SPEC -> daemon (C10_spec_accepted): credentials built by V3Accept.v3_build, the functional form of the documented
+    # relation — arbitrary IV of the cipher's length, arbitrary salt, origin address of 0 or 4 bytes, a realm, compression
+    # kept whether or not it shrank the data (incompressible payloads), every cipher x MAC x zip the daemon can decode
+    dist["spec->daemon"] = 0
+    combos = [(c, m, z) for c in (0, 2, 3, 4, 5) for m in (2, 3, 4, 5, 6) for z in (0, 2, 3) if not (c == 5 and m in (2, 3, 4))]
+    if not ctx.thorough:
+        combos = [combos[i] for i in range(0, len(combos), 3)] + [(5, 6, 2), (0, 2, 3)]
+    for (c, m, z) in combos:
+        ivlen = 0 if c == 0 else (8 if c in (2, 3) else 16)
+        for variant in ("incompressible", "addr0-realm"):
+            data = bytes(rng.getrandbits(8) for _ in range(rng.randrange(1, 60))) if variant == "incompressible" else b"A" * 300
+            addr = bytes(rng.getrandbits(8) for _ in range(4)) if variant == "incompressible" else b""
+            realm = b"" if variant == "incompressible" else b"spec-realm"
+            t0 = cr.now - rng.randrange(0, 20)
+            uid, gid = rng.choice([0, 1, 31337, 0x80000000, 0xFFFFFFFE]), rng.choice([0, 7, 0xFFFFFFFE])
+            cred = cr.o.build(c, m, z, realm, bytes(rng.getrandbits(8) for _ in range(8)), addr, t0, 55, uid, gid, ANY, ANY, data,
+                              bytes(rng.getrandbits(8) for _ in range(ivlen)))
+            if cred is None:
+                continue
+            ctx.count(("spec2d", c, m, z, variant, cred[:40]))
+            dist["spec->daemon"] += 1
+            for framed in (cred + b"\0", cred):
+                d, mm, diff = cr.decode_both(framed, uid=1, gid=1)
+                if diff:
+                    mism.append(cr.mismatches[-1])
+                got = d and (d["error_num"], d["cipher"], d["mac"], d["zip"], d["cred_uid"], d["cred_gid"], d["ttl"], d["time0"], d["addr_len"], d["data"])
+                want = (0, c, m, z, uid, gid, 55, t0, len(addr), data)
+                if framed is cred:
+                    want = (17,) + want[1:]      # second presentation of the same credential: replayed, fields still reported
+                if d is None or got[0] != want[0] or (got[0] == 0 and got != want):
+                    fails.append({"why": "a credential satisfying the documented format (built by the spec: cipher %d mac %d zip %d, %s) is "
+                                         "not accepted with its fields: daemon %s, spec %s" % (c, m, z, variant, str(got)[:160], str(want)[:160]),
+                                  "cred_hex": cred.hex()[:3000]})
     rc, rep = cr.stop()
     if rep.strip():
         ctx.violation("sanitizer report from the daemon during C10 cases", {"report": rep[:3000]}, found_input=False)
